@@ -288,3 +288,7 @@ package flows
 //@ func (s *GroupAssets) Get
 //@   assigns nothing
 //@   ensures_trusted [by_uuid] result != nil ==> result.UUID() == uuid
+
+//@ func (s *LabelAssets) Get
+//@   assigns nothing
+//@   ensures_trusted [by_uuid] result != nil ==> result.UUID() == uuid
